@@ -878,6 +878,9 @@ def subscript(I, o, k):
     r = libdt.subscript(I, o, k)
     if r is not NOTFOUND:
         return r
+    from . import envmodel as E
+    if isinstance(o, E.MatchVal):
+        return E.match_getitem(I, o, k)
     if isinstance(o, Obj) and o.cls is not None:
         m = I.repo.find_method(o.cls, '__getitem__')
         if m is not None:
